@@ -27,6 +27,7 @@
 #include "stir/ExamInfo.h"
 #include "stir/ViewSegmentNumbers.h"
 #include "stir/DiscretisedDensity.h"
+#include "stir/IO/write_to_file.h"
 #include <cstring>
 #include <new>
 #include <memory>
@@ -942,6 +943,7 @@ run_case(Ctx& ctx)
   // returns 0 = agrees, 1 = disagrees in the way of an attributed defect (reported once, case continues), 2 = disagrees
   const bool tof_mult_case = w.tofsens && c.zero_ends && c.norm_kind == 0;
   bool sens_defect_seen = false;
+  bool hess_defect_seen = false; // a Hessian product of the first object was attributed to a specific defect key
   auto check_sens = [&](const std::vector<float>& got, const std::vector<double>& sref, const std::vector<double>& sband,
                         const std::vector<double>& salt, const std::vector<double>& stof0, double scale, bool try_alt,
                         const std::string& what, int& jbad) -> int {
@@ -1089,6 +1091,7 @@ run_case(Ctx& ctx)
                 ht0[v] = w.out0[v] + r.H_tof0[v];
                 ht0band[v] = r.H_tof0_band[v] + 4 * vf::EPS32 * std::fabs(w.out0[v]);
               }
+            hess_defect_seen = true;
             if (c.zero_ends && first_bad(HH[s], halt, haltband) < 0)
               specific("hessian-times-input:zero_seg0_end_planes-ignored",
                        vf::fmt("subset %d/%d %s: out0 + H v: STIR %.9g; with the end planes of segment 0 removed (as value and "
@@ -1111,11 +1114,12 @@ run_case(Ctx& ctx)
 
   // ---- sum over subsets = full-data counterpart (public full-data API of the same object, and the reference)
   ctx.heartbeat("full-quantities");
+  std::vector<float> gf, sf; // full gradient and total sensitivity of the first object (also used by the history clause)
   if (!orders_only)
   {
     shared_ptr<Target> g(w.image->get_empty_copy());
     obj.compute_gradient_without_penalty(*g, *L1);
-    const std::vector<float> gf = World::vec_from(*g);
+    gf = World::vec_from(*g);
     std::vector<double> band(w.nvox);
     for (int v = 0; v < w.nvox; ++v)
       band[v] = full.g_band[v] + 8. * (c.S + 2) * vf::EPS32 * full.g_band[v];
@@ -1144,7 +1148,7 @@ run_case(Ctx& ctx)
       return fail("full-value-differs-from-sum-of-subsets-or-reference",
                   vf::fmt("full %.12g, sum over %d subsets %.12g, reference %.12g band %.3g", vfull, c.S, vs, full.L1, full.L1_band));
     ctx.count("value_checks", 2);
-    const std::vector<float> sf = World::vec_from(obj.get_sensitivity());
+    sf = World::vec_from(obj.get_sensitivity());
     {
       // the total does not depend on how the views are grouped into subsets: no alternative for the non-TOF grouping
       const int rc = check_sens(sf, full.s, full.s_band, full.s, full.s_tof0, 1., false, "total sensitivity", j);
@@ -1212,6 +1216,8 @@ run_case(Ctx& ctx)
     }
 
   // ---- penalised = unpenalised - prior share (the prior itself is C09's business: a second, identical prior is the oracle)
+  double pen_value = 0;          // penalised value / gradient of subset s_pen of the first object (history clause)
+  std::vector<float> pen_grad;
   if (c.prior && !orders_only)
     {
       ctx.heartbeat("penalised");
@@ -1229,6 +1235,7 @@ run_case(Ctx& ctx)
       const int s = s_pen;
       // value
       const double pv = obj.compute_objective_function(*L1, s);
+      pen_value = pv;
       const double pv_ref = V1[s] - pval / c.S;
       if (!vf::close_enough(pv, pv_ref, 1e-12 * (std::fabs(V1[s]) + std::fabs(pval))))
         return fail("penalised-subset-value-is-not-unpenalised-minus-prior-share",
@@ -1244,6 +1251,7 @@ run_case(Ctx& ctx)
       shared_ptr<Target> g(w.image->get_empty_copy());
       obj.compute_sub_gradient(*g, *L1, s);
       const std::vector<float> gv = World::vec_from(*g);
+      pen_grad = gv;
       for (int v = 0; v < w.nvox; ++v)
         {
           const double e = static_cast<double>(G[s][v]) - static_cast<double>(pgv[v]) / c.S;
@@ -1293,6 +1301,602 @@ run_case(Ctx& ctx)
         ctx.count("hessian_checks", w.nvox);
       ctx.count("penalised_checks", 4);
     }
+
+  // ---- re-configuration history (quantifier "histories"): ONE object is taken through 2..5 configurations; between two
+  // set_up()s one or more settings are changed through the public setters ("After using any of these, you have to call
+  // set_up()") and a random selection of quantities is requested, so that everything the object caches is filled before the
+  // next change.  The LAST configuration is the configuration of this case: every quantity must then equal (a) the float64
+  // reference (same bands as above) and (b) bit for bit what the first, freshly configured object of this case returned.
+  // The earlier configurations are perturbations of the last one; nothing is demanded of their results.
+  {
+    const char* henv = std::getenv("VERIF_C05_HISTORY"); // development aid: "all" / "none"
+    const bool history_case = !orders_only && (henv ? std::string(henv) == "all" : ctx.idx % 2 == 1);
+    if (history_case)
+      {
+        ctx.heartbeat("history-generate");
+        vf::Rng hr(rng.next() ^ 0xC05C05ULL); // drawn after all other generation: the case itself is unchanged by this clause
+        enum
+        {
+          USS = 0, // use_subset_sensitivities
+          NS,      // num_subsets
+          ZE,      // zero_seg0_end_planes
+          MS,      // max_segment_num_to_process (-1 = "all", the default)
+          AD,      // additive term: 0 none, 1 the one of this case, 2 other data
+          NO,      // normalisation: 0 the one of this case, 1 trivial, 2 other non-TOF norm data, 3 other TOF norm data
+          DA,      // measured data: 0 this case's, 1 other data
+          SE,      // sensitivities: 0 recomputed, 1 read from files
+          PR,      // prior: 0 none, 1 QuadraticPrior
+          PP,      // projector pair: 0 matrix configured as in this case, 1 other symmetry/cache/ray settings
+          NSET
+        };
+        static const char* const set_name[NSET]
+            = { "use_subset_sensitivities", "num_subsets", "zero_seg0_end_planes", "max_segment_num_to_process", "additive_proj_data",
+                "normalisation",            "proj_data",   "sensitivity_source",   "prior",                      "projector_pair" };
+        struct Step
+        {
+          int v[NSET];
+          unsigned redundant = 0; // settings that are set again although unchanged
+          unsigned requests = 0;  // what is requested after this step's set_up (intermediate steps)
+          int req_subset = 0;
+          int order[NSET]; // order in which the setters are called
+        };
+        // the use_tofsens flag of the class is switched on by set_up() when it meets TOF-only norm data and stays on (there
+        // is no setter); histories of a case whose sensitivity uses the non-TOF projector therefore never contain TOF norm data
+        const bool allow_tof_norm = c.tof && w.tofsens;
+        // other data objects
+        std::vector<float> y_alt(w.gT.nbins), a_alt(w.gT.nbins);
+        for (auto& x : y_alt)
+          x = hr.coin(0.3) ? 0.f : static_cast<float>(hr.poisson(3.));
+        {
+          const double alevel = std::max(meanF, 1e-3) * std::pow(10., hr.uniform(-2., 0.5));
+          for (auto& x : a_alt)
+            x = static_cast<float>(hr.uniform(0.2, 1.5) * alevel);
+        }
+        const shared_ptr<ProjData> y_alt_pd = make_pd(w.exam, w.gT, y_alt), a_alt_pd = make_pd(w.exam, w.gT, a_alt);
+        const shared_ptr<ProjData> n_alt0_pd = make_pd(w.exam, w.g0, rand_vec(hr, w.g0.nbins, 0.5, 2.));
+        shared_ptr<ProjData> n_altT_pd;
+        if (allow_tof_norm)
+          n_altT_pd = make_pd(w.exam, w.gT, rand_vec(hr, w.gT.nbins, 0.5, 2.));
+        Cfg c_alt = c;
+        c_alt.cache_disabled = !c.cache_disabled;
+        if (hr.coin())
+          c_alt.basic_only = !c.basic_only;
+        switch (hr.range(0, 5))
+          {
+          case 0: c_alt.sym90 = !c.sym90; break;
+          case 1: c_alt.sym180 = !c.sym180; break;
+          case 2: c_alt.swap_seg = !c.swap_seg; break;
+          case 3: c_alt.swap_s = !c.swap_s; break;
+          case 4: c_alt.shift_z = !c.shift_z; break;
+          default: break;
+          }
+        if (hr.coin(0.3))
+          c_alt.tang_lors = c.tang_lors == 1 ? 2 : 1;
+        const shared_ptr<Target> junk = w.img_from(rand_vec(hr, w.nvox, 0.5, 2.)); // "supplied" sensitivities of intermediate steps
+        auto norm_variant = [&](int k) -> shared_ptr<BinNormalisation> {
+          switch (k)
+            {
+            case 0: return w.make_norm();
+            case 1: return shared_ptr<BinNormalisation>(new TrivialBinNormalisation());
+            case 2: return shared_ptr<BinNormalisation>(new BinNormalisationFromProjData(n_alt0_pd));
+            default: return shared_ptr<BinNormalisation>(new BinNormalisationFromProjData(n_altT_pd));
+            }
+        };
+
+        // ---- the steps, generated backwards from the configuration of this case
+        const int nsteps = static_cast<int>(hr.range(2, 5));
+        std::vector<Step> steps(nsteps);
+        {
+          Step& fin = steps.back();
+          const int fv[NSET] = { c.use_subset_sens ? 1 : 0, c.S, c.zero_ends ? 1 : 0, c.max_seg, c.additive ? 1 : 0, 0, 0, c.supplied ? 1 : 0,
+                                 c.prior ? 1 : 0,           0 };
+          std::copy(fv, fv + NSET, fin.v);
+        }
+        const std::vector<int> divs = vg::divisors(nviews);
+        auto mutate = [&](Step& sp, int d) {
+          const int old = sp.v[d];
+          for (int attempt = 0; attempt < 8 && sp.v[d] == old; ++attempt)
+            switch (d)
+              {
+              case USS:
+              case ZE:
+              case DA:
+              case SE:
+              case PR:
+              case PP:
+                sp.v[d] = 1 - old;
+                break;
+              case NS:
+                sp.v[d] = sp.v[USS] ? static_cast<int>(hr.range(1, nviews)) : hr.pick(divs);
+                break;
+              case MS:
+                sp.v[d] = static_cast<int>(hr.range(-1, pmaxseg));
+                break;
+              case AD:
+                sp.v[d] = c.additive ? static_cast<int>(hr.range(0, 2)) : (hr.coin() ? 0 : 2);
+                break;
+              case NO:
+                sp.v[d] = static_cast<int>(hr.range(0, allow_tof_norm ? 3 : 2));
+                break;
+              }
+        };
+        static const double weight[NSET] = { 3, 3, 2, 2, 2, 2, 2, 2, 1, 1.5 };
+        double wsum = 0;
+        for (double x : weight)
+          wsum += x;
+        for (int i = nsteps - 2; i >= 0; --i)
+          {
+            std::copy(steps[i + 1].v, steps[i + 1].v + NSET, steps[i].v);
+            const int nmut = 1 + (hr.coin(0.5) ? 1 : 0) + (hr.coin(0.3) ? 1 : 0);
+            for (int m = 0; m < nmut; ++m)
+              {
+                double u = hr.uniform(0., wsum);
+                int d = 0;
+                while (d < NSET - 1 && u >= weight[d])
+                  u -= weight[d++];
+                mutate(steps[i], d);
+              }
+            // without subset sensitivities the class documents that the subsets have to be balanced
+            if (!steps[i].v[USS] && nviews % steps[i].v[NS] != 0)
+              steps[i].v[NS] = hr.pick(divs);
+          }
+        for (auto& sp : steps)
+          {
+            for (int d = 0; d < NSET; ++d)
+              {
+                sp.order[d] = d;
+                if (hr.coin(0.12))
+                  sp.redundant |= 1u << d;
+              }
+            for (int d = NSET - 1; d > 0; --d)
+              std::swap(sp.order[d], sp.order[hr.range(0, d)]);
+            for (int q = 0; q < 9; ++q)
+              if (hr.coin(0.45))
+                sp.requests |= 1u << q;
+            if (!sp.requests)
+              sp.requests = 1u << hr.range(0, 8);
+            sp.req_subset = static_cast<int>(hr.range(0, sp.v[NS] - 1));
+          }
+        {
+          vf::Desc hd;
+          for (int i = 0; i < nsteps; ++i)
+            {
+              std::string t;
+              for (int d = 0; d < NSET; ++d)
+                t += vf::fmt("%s%d", d ? "," : "", steps[i].v[d]);
+              hd.add(vf::fmt("step%d", i), t + vf::fmt(" redundant=%u requests=%u subset=%d", steps[i].redundant, steps[i].requests, steps[i].req_subset));
+            }
+          hd.add("settings", "use_subset_sens,num_subsets,zero_ends,max_seg,additive(0 none/1 case/2 other),norm(0 case/1 trivial/2 other/3 other TOF),"
+                             "data(0 case/1 other),sens(0 recompute/1 read),prior,projector_pair(0 case/1 other)");
+          ctx.desc.add("history", hd);
+        }
+        for (int i = 0; i + 1 < nsteps; ++i)
+          for (int s = 0; s < nviews; ++s)
+            {
+              for (const std::string& hv : { vf::fmt((tmp + vf::fmt("/c05_%ld_h%d_subsens_%%d.hv", ctx.idx, i)).c_str(), s),
+                                             tmp + vf::fmt("/c05_%ld_h%d_sens.hv", ctx.idx, i) })
+                {
+                  cleanup.files.push_back(hv);
+                  cleanup.files.push_back(hv.substr(0, hv.size() - 2) + "v");
+                  cleanup.files.push_back(hv.substr(0, hv.size() - 2) + "ahv");
+                }
+            }
+
+        struct HOut
+        {
+          bool abandoned = false;
+          int fail_step = -1;
+          std::string fail, wit; // fail: "<quantity>-differs-from-<reference|fresh-object>" or another clause name
+        };
+        // verify_last: the last step is the configuration of this case and is verified; otherwise it is treated like an
+        // intermediate step (used when naming a failure that happened before the last step)
+        auto run_history = [&](const std::vector<Step>& st, const bool counting, const bool verify_last) -> HOut {
+          HOut out;
+          Holder hh;
+          hh.create(c.alloc);
+          ObjFn& o = *hh.obj;
+          if (c.parse_tofsens)
+            {
+              std::istringstream par("PoissonLogLikelihoodWithLinearModelForMeanAndProjData Parameters:=\n"
+                                     "use time-of-flight sensitivities := 1\n"
+                                     "End PoissonLogLikelihoodWithLinearModelForMeanAndProjData Parameters:=\n");
+              if (!o.parse(par))
+                throw std::runtime_error("harness: parsing 'use time-of-flight sensitivities' failed");
+            }
+          // what the object was told last; the defaults of the class for the settings that a user need not set
+          int cur[NSET];
+          std::fill(cur, cur + NSET, -2);
+          cur[ZE] = 0, cur[MS] = -1, cur[AD] = 0, cur[PR] = 0;
+          shared_ptr<ProjectorByBinPair> cur_pair;
+          for (size_t i = 0; i < st.size(); ++i)
+            {
+              const Step& sp = st[i];
+              const bool last = verify_last && i + 1 == st.size();
+              out.fail_step = static_cast<int>(i);
+              ctx.heartbeat(vf::fmt("history-step-%d-of-%d-setters", static_cast<int>(i), static_cast<int>(st.size())));
+              for (int kk = 0; kk < NSET; ++kk)
+                {
+                  const int d = sp.order[kk];
+                  if (d == SE)
+                    continue; // below: depends on use_subset_sensitivities / num_subsets of this step
+                  const bool changed = cur[d] != sp.v[d];
+                  if (!changed && !((sp.redundant >> d) & 1u))
+                    continue;
+                  if (counting && i > 0)
+                    ctx.count(changed ? std::string("history_change_") + set_name[d] : std::string("history_redundant_setter_calls"));
+                  if (counting && changed && last)
+                    ctx.count(std::string("history_last_change_") + set_name[d]);
+                  switch (d)
+                    {
+                    case USS: o.set_use_subset_sensitivities(sp.v[d] != 0); break;
+                    case NS: o.set_num_subsets(sp.v[d]); break;
+                    case ZE: o.set_zero_seg0_end_planes(sp.v[d] != 0); break;
+                    case MS: o.set_max_segment_num_to_process(sp.v[d]); break;
+                    case AD:
+                      o.set_additive_proj_data_sptr(sp.v[d] == 0 ? shared_ptr<ProjData>() : (sp.v[d] == 1 ? w.a_pd : a_alt_pd));
+                      break;
+                    case NO: o.set_normalisation_sptr(norm_variant(sp.v[d])); break;
+                    case DA: o.set_proj_data_sptr(sp.v[d] == 0 ? w.y_pd : y_alt_pd); break;
+                    case PR:
+                      o.set_prior_sptr(sp.v[d] ? shared_ptr<GeneralisedPrior<Target>>(new QuadraticPrior<float>(false, c.beta))
+                                               : shared_ptr<GeneralisedPrior<Target>>());
+                      break;
+                    case PP:
+                      if (changed || is_null_ptr(cur_pair) || (sp.req_subset & 1)) // redundant call: a new identical pair, or the same object again
+                        cur_pair.reset(new ProjectorByBinPairUsingProjMatrixByBin(make_matrix(sp.v[d] == 0 ? c : c_alt)));
+                      o.set_projector_pair_sptr(cur_pair);
+                      break;
+                    }
+                  cur[d] = sp.v[d];
+                }
+              {
+                const bool changed = cur[SE] != sp.v[SE];
+                if (counting && i > 0 && changed)
+                  ctx.count(std::string("history_change_") + set_name[SE]);
+                if (counting && changed && last)
+                  ctx.count(std::string("history_last_change_") + set_name[SE]);
+                if (sp.v[SE] == 1)
+                  {
+                    std::string pat = w.sens_pattern, file = w.sens_file; // last step: written by this case's 'writer' object
+                    if (!last)
+                      {
+                        pat = tmp + vf::fmt("/c05_%ld_h%d_subsens_%%d.hv", ctx.idx, static_cast<int>(i));
+                        file = tmp + vf::fmt("/c05_%ld_h%d_sens.hv", ctx.idx, static_cast<int>(i));
+                        for (int s = 0; s < (sp.v[USS] ? sp.v[NS] : 1); ++s)
+                          write_to_file(sp.v[USS] ? vf::fmt(pat.c_str(), s) : file, *junk);
+                        if (counting)
+                          ctx.count("history_steps_reading_other_sensitivities");
+                      }
+                    if (sp.v[USS])
+                      o.set_subsensitivity_filenames(pat);
+                    else
+                      o.set_sensitivity_filename(file);
+                    o.set_recompute_sensitivity(false);
+                  }
+                else if (changed || ((sp.redundant >> SE) & 1u))
+                  o.set_recompute_sensitivity(true);
+                cur[SE] = sp.v[SE];
+              }
+              ctx.heartbeat(vf::fmt("history-step-%d-of-%d-set_up", static_cast<int>(i), static_cast<int>(st.size())));
+              try
+                {
+                  shared_ptr<Target> target(w.image->clone());
+                  if (o.set_up(target) != Succeeded::yes)
+                    throw std::runtime_error("set_up returned Succeeded::no");
+                }
+              catch (const std::exception& e)
+                {
+                  if (last)
+                    {
+                      // an identically configured fresh object (the first object of this case) was accepted
+                      out.fail = "set_up-of-the-last-configuration-rejected-although-a-fresh-object-accepts-it";
+                      out.wit = e.what();
+                    }
+                  else
+                    {
+                      out.abandoned = true; // rejected by the library: not a verdict
+                      if (counting)
+                        ctx.count("history_abandoned_intermediate_set_up_rejected");
+                    }
+                  return out;
+                }
+              if (counting)
+                ctx.count(i == 0 ? "history_first_set_ups" : "history_re_set_ups");
+              const int S = sp.v[NS];
+              if (!last)
+                {
+                  // fill the caches: results are not examined
+                  ctx.heartbeat(vf::fmt("history-step-%d-of-%d-requests", static_cast<int>(i), static_cast<int>(st.size())));
+                  const int s = std::min(sp.req_subset, S - 1);
+                  try
+                    {
+                      shared_ptr<Target> g(w.image->get_empty_copy());
+                      long nreq = 0;
+                      for (int q = 0; q < 9; ++q)
+                        {
+                          if (!((sp.requests >> q) & 1u))
+                            continue;
+                          ++nreq;
+                          switch (q)
+                            {
+                            case 0: o.compute_objective_function_without_penalty(*L1, s); break;
+                            case 1: o.compute_sub_gradient_without_penalty(*g, *L1, s); break;
+                            case 2: o.compute_sub_gradient_without_penalty_plus_sensitivity(*g, *L2, s); break;
+                            case 3: (void)o.get_subset_sensitivity(s).find_max(); break;
+                            case 4: (void)o.get_sensitivity().find_max(); break;
+                            case 5: o.compute_gradient_without_penalty(*g, *L1); break;
+                            case 6: {
+                              shared_ptr<Target> out2 = w.img_from(w.out0);
+                              o.accumulate_sub_Hessian_times_input_without_penalty(*out2, *L1, *V, s);
+                              break;
+                            }
+                            case 7:
+                              if (sp.v[SE] == 0) // the projector for the sensitivity is only set up when the sensitivity is computed
+                                o.add_subset_sensitivity(*g, s);
+                              else
+                                --nreq;
+                              break;
+                            case 8: o.compute_sub_gradient(*g, *L1, s); break;
+                            }
+                        }
+                      if (counting)
+                        ctx.count("history_intermediate_requests", nreq);
+                    }
+                  catch (const std::exception& e)
+                    {
+                      out.fail = "request-throws:" + vf::short_what(e.what());
+                      out.wit = vf::fmt("step %d of %d, subset %d/%d: ", static_cast<int>(i), static_cast<int>(st.size()), s, S) + e.what();
+                      return out;
+                    }
+                  continue;
+                }
+
+              // ---- the last configuration: everything, every subset
+              ctx.heartbeat("history-final-quantities");
+              long nref = 0, nbits = 0;
+              int kinds[4] = { 0, 1, 2, 3 }; // 0 gradient (+sensitivity), 1 sensitivity, 2 value, 3 Hessian product: a random order
+              for (unsigned n = sp.requests % 24u; n > 0; --n)
+                std::next_permutation(kinds, kinds + 4);
+              auto differs = [&](const std::string& q, bool from_reference, const std::string& wit) {
+                out.fail = q + (from_reference ? "-differs-from-reference" : "-differs-from-fresh-object");
+                out.wit = wit;
+              };
+              try
+                {
+                  for (int s = 0; s < S && out.fail.empty(); ++s)
+                    {
+                      const SubRef& r = ref[s];
+                      for (int kq = 0; kq < 4 && out.fail.empty(); ++kq)
+                        switch (kinds[kq])
+                          {
+                          case 0: {
+                            shared_ptr<Target> g(w.image->get_empty_copy());
+                            std::fill(g->begin_all(), g->end_all(), 7.f);
+                            o.compute_sub_gradient_without_penalty(*g, *L1, s);
+                            const std::vector<float> hg = World::vec_from(*g);
+                            int j = first_bad(hg, r.g, r.g_band);
+                            if (j >= 0)
+                              {
+                                differs("subset-gradient", true,
+                                        vf::fmt("subset %d/%d %s: history object %.9g, reference %.9g, band %.3g, fresh object %.9g", s, S,
+                                                vox_name(w, j).c_str(), hg[j], r.g[j], r.g_band[j], G[s][j]));
+                                break;
+                              }
+                            if (!same_bits(hg, G[s]))
+                              {
+                                differs("subset-gradient", false, vf::fmt("subset %d/%d", s, S));
+                                break;
+                              }
+                            std::fill(g->begin_all(), g->end_all(), -3.f);
+                            o.compute_sub_gradient_without_penalty_plus_sensitivity(*g, *L1, s);
+                            const std::vector<float> hgp = World::vec_from(*g);
+                            j = first_bad(hgp, r.gp, r.gp_band);
+                            if (j >= 0)
+                              differs("subset-gradient-plus-sensitivity", true,
+                                      vf::fmt("subset %d/%d %s: history object %.9g, reference %.9g, band %.3g, fresh object %.9g", s, S,
+                                              vox_name(w, j).c_str(), hgp[j], r.gp[j], r.gp_band[j], GP[s][j]));
+                            else if (!same_bits(hgp, GP[s]))
+                              differs("subset-gradient-plus-sensitivity", false, vf::fmt("subset %d/%d", s, S));
+                            nref += 2L * w.nvox, nbits += 2L * w.nvox;
+                            break;
+                          }
+                          case 1: {
+                            const std::vector<float> hs = World::vec_from(o.get_subset_sensitivity(s));
+                            std::vector<double> sref(w.nvox), sband(w.nvox);
+                            for (int v = 0; v < w.nvox; ++v)
+                              {
+                                sref[v] = c.use_subset_sens ? r.s[v] : full.s[v] / c.S;
+                                sband[v] = c.use_subset_sens ? r.s_band[v] : full.s_band[v] / c.S + 4 * vf::EPS32 * full.s[v] / c.S;
+                              }
+                            int j = -1;
+                            // same attribution as for the first object: the known TOF-data/non-TOF-sensitivity defect keeps its own key
+                            const int rc = check_sens(hs, sref, sband, r.s_alt, c.use_subset_sens ? r.s_tof0 : full.s_tof0,
+                                                      c.use_subset_sens ? 1. : 1. / c.S, w.sens_nontof && c.use_subset_sens,
+                                                      vf::fmt("subset sensitivity %d/%d after a re-configuration history", s, S), j);
+                            if (rc == 2)
+                              differs("subset-sensitivity", true,
+                                      vf::fmt("subset %d/%d %s: history object %.9g, F' eff = %.9g, band %.3g, fresh object %.9g", s, S,
+                                              vox_name(w, j).c_str(), hs[j], sref[j], sband[j], SS[s][j]));
+                            else if (!same_bits(hs, SS[s]))
+                              differs("subset-sensitivity", false, vf::fmt("subset %d/%d", s, S));
+                            if (rc == 0)
+                              nref += w.nvox;
+                            nbits += w.nvox;
+                            break;
+                          }
+                          case 2: {
+                            const double hv = o.compute_objective_function_without_penalty(*L1, s);
+                            if (!vf::close_enough(hv, r.L1, r.L1_band))
+                              differs("subset-value", true,
+                                      vf::fmt("subset %d/%d: history object %.12g, reference %.12g band %.3g, fresh object %.12g", s, S, hv, r.L1,
+                                              r.L1_band, V1[s]));
+                            else if (hv != V1[s])
+                              differs("subset-value", false, vf::fmt("subset %d/%d: %.17g vs %.17g", s, S, hv, V1[s]));
+                            ++nref, ++nbits;
+                            break;
+                          }
+                          case 3: {
+                            shared_ptr<Target> out2 = w.img_from(w.out0);
+                            if (o.accumulate_sub_Hessian_times_input_without_penalty(*out2, *L1, *V, s) != Succeeded::yes)
+                              {
+                                out.fail = "hessian-times-input-returned-no";
+                                out.wit = vf::fmt("subset %d/%d", s, S);
+                                break;
+                              }
+                            const std::vector<float> hh2 = World::vec_from(*out2);
+                            int j = -1;
+                            if (!hess_defect_seen)
+                              {
+                                std::vector<double> href(w.nvox), hband(w.nvox);
+                                for (int v = 0; v < w.nvox; ++v)
+                                  {
+                                    href[v] = w.out0[v] + r.H[v];
+                                    hband[v] = r.H_band[v] + 4 * vf::EPS32 * std::fabs(w.out0[v]);
+                                  }
+                                j = first_bad(hh2, href, hband);
+                                if (j >= 0)
+                                  differs("hessian-times-input", true,
+                                          vf::fmt("subset %d/%d %s: out0 + H v: history object %.9g, reference %.9g, band %.3g, fresh object %.9g",
+                                                  s, S, vox_name(w, j).c_str(), hh2[j], href[j], hband[j], HH[s][j]));
+                                nref += w.nvox;
+                              }
+                            if (j < 0 && !same_bits(hh2, HH[s]))
+                              differs("hessian-times-input", false, vf::fmt("subset %d/%d", s, S));
+                            nbits += w.nvox;
+                            break;
+                          }
+                          }
+                    }
+                  if (out.fail.empty())
+                    {
+                      shared_ptr<Target> g(w.image->get_empty_copy());
+                      o.compute_gradient_without_penalty(*g, *L1);
+                      const std::vector<float> hgf = World::vec_from(*g);
+                      std::vector<double> band(w.nvox);
+                      for (int v = 0; v < w.nvox; ++v)
+                        band[v] = full.g_band[v] + 8. * (c.S + 2) * vf::EPS32 * full.g_band[v];
+                      int j = first_bad(hgf, full.g, band);
+                      if (j >= 0)
+                        differs("full-gradient", true,
+                                vf::fmt("%s: history object %.9g, reference %.9g, band %.3g, fresh object %.9g", vox_name(w, j).c_str(), hgf[j],
+                                        full.g[j], band[j], gf[j]));
+                      else if (!same_bits(hgf, gf))
+                        differs("full-gradient", false, "");
+                      nref += w.nvox, nbits += w.nvox;
+                    }
+                  if (out.fail.empty())
+                    {
+                      const std::vector<float> hsf = World::vec_from(o.get_sensitivity());
+                      int j = -1;
+                      const int rc = check_sens(hsf, full.s, full.s_band, full.s, full.s_tof0, 1., false,
+                                                "total sensitivity after a re-configuration history", j);
+                      if (rc == 2)
+                        differs("total-sensitivity", true,
+                                vf::fmt("%s: history object %.9g, F' eff = %.9g, band %.3g, fresh object %.9g", vox_name(w, j).c_str(), hsf[j],
+                                        full.s[j], full.s_band[j], sf[j]));
+                      else if (!same_bits(hsf, sf))
+                        differs("total-sensitivity", false, "");
+                      if (rc == 0)
+                        nref += w.nvox;
+                      nbits += w.nvox;
+                    }
+                  if (out.fail.empty() && c.prior)
+                    {
+                      const double hpv = o.compute_objective_function(*L1, s_pen);
+                      shared_ptr<Target> g(w.image->get_empty_copy());
+                      o.compute_sub_gradient(*g, *L1, s_pen);
+                      if (hpv != pen_value)
+                        differs("penalised-subset-value", false, vf::fmt("subset %d/%d: %.17g vs %.17g", s_pen, S, hpv, pen_value));
+                      else if (!same_bits(World::vec_from(*g), pen_grad))
+                        differs("penalised-subset-gradient", false, vf::fmt("subset %d/%d", s_pen, S));
+                      nbits += w.nvox + 1;
+                    }
+                }
+              catch (const std::exception& e)
+                {
+                  out.fail = "request-throws:" + vf::short_what(e.what());
+                  out.wit = std::string("last configuration: ") + e.what();
+                  return out;
+                }
+              if (counting && out.fail.empty())
+                {
+                  ctx.count("history_completed");
+                  ctx.count("history_values_compared_with_reference", nref);
+                  ctx.count("history_values_compared_bitwise_with_fresh_object", nbits);
+                }
+            }
+          return out;
+        };
+
+        ctx.count("history_runs");
+        HOut res = run_history(steps, true, true);
+        if (!res.fail.empty())
+          {
+            // name what has to change between two set_up()s for this to happen (the key is then specific to the defect and not to
+            // this particular random history): find an earlier configuration that suffices as the only predecessor of the last
+            // one, then drop every difference that is not needed
+            auto direction = [&](int d, int from, int to) -> std::string {
+              switch (d)
+                {
+                case USS:
+                case ZE:
+                case PR: return to ? "off->on" : "on->off";
+                case NS: return to > from ? "increased" : "decreased";
+                case MS: return "changed";
+                case AD: return to == 0 ? "removed" : (from == 0 ? "added" : "other-data");
+                case SE: return to ? "recomputed->read-from-file" : "read-from-file->recomputed";
+                default: return "replaced";
+                }
+            };
+            auto all_requests = [&](Step sp) {
+              sp.requests = 0x1ffu;
+              sp.redundant = 0;
+              return sp;
+            };
+            const int m = res.fail_step; // the step at which it happened (the last one unless a request or set_up threw earlier)
+            const bool at_last = m == nsteps - 1;
+            const Step fin = at_last ? steps[m] : all_requests(steps[m]);
+            auto fails_after = [&](const Step& A) { return !run_history({ A, fin }, false, at_last).fail.empty(); };
+            std::string what;
+            if (m == 0)
+              what = "no-history:first-configuration";
+            for (int i = m - 1; i >= 0 && what.empty(); --i)
+              {
+                // is this earlier configuration, as the only predecessor, enough?
+                Step A = all_requests(steps[i]);
+                if (!fails_after(A))
+                  continue;
+                // 1-minimal set of settings that have to differ from the last configuration (a rejected set_up counts as "needed")
+                for (int d = 0; d < NSET; ++d)
+                  {
+                    if (A.v[d] == fin.v[d])
+                      continue;
+                    Step B = A;
+                    B.v[d] = fin.v[d];
+                    if (fails_after(B))
+                      A = B;
+                  }
+                for (int d = 0; d < NSET; ++d)
+                  if (A.v[d] != fin.v[d])
+                    what += (what.empty() ? "" : "+") + std::string(set_name[d]) + ":" + direction(d, A.v[d], fin.v[d]);
+                if (what.empty())
+                  what = "repeated-set_up-without-change";
+              }
+            if (what.empty())
+              {
+                std::set<int> ch;
+                for (int i = 1; i <= m; ++i)
+                  for (int d = 0; d < NSET; ++d)
+                    if (steps[i].v[d] != steps[i - 1].v[d])
+                      ch.insert(d);
+                what = "needs-more-than-two-configurations";
+                for (int d : ch)
+                  what += std::string(":") + set_name[d];
+              }
+            return fail("history:" + res.fail + "-after-re-set_up:" + what, vf::fmt("history of %d configurations, failed at step %d (see desc.history): ", nsteps, m) + res.wit);
+          }
+      }
+  }
 
   // ---- order independence: 24 orders of first use on fresh, identically configured objects
   {
